@@ -226,7 +226,7 @@ class World(WorldBase):
             "faults": [],
         }
         if batch == "fault":
-            sw["faults"] = rng.sample(["interrupt", "interrupt_line", "interrupt_line", "oserror_write", "oserror_open",
+            sw["faults"] = rng.sample(["interrupt", "interrupt_line", "interrupt_line", "alloc_line", "oserror_write", "oserror_open",
                                        "short_write", "short_read", "oserror_read"], rng.randint(1, 4))
             sw["p_fault"] = rng.choice([0.15, 0.3])
             sw["chunk"] = rng.choice(CHUNKS[:4])
@@ -413,7 +413,7 @@ class World(WorldBase):
             op = self.stamp(op, rng)
             if sw["faults"] and rng.random() < sw["p_fault"]:
                 kind = rng.choice(sw["faults"])
-                if kind == "interrupt_line":
+                if kind in ("interrupt_line", "alloc_line"):
                     nln = self.dry_lines(lambda: self.exec_call(op, dry=True))
                     if nln > 0 and "obj" not in op and rng.random() < 0.5:
                         # crash-point sweep: the same call is cancelled at m instants spread over
@@ -421,7 +421,8 @@ class World(WorldBase):
                         # completion and is judged as usual
                         m = min(nln, rng.choice([6, 12, 20]))
                         ats = sorted({1 + (k * nln) // m + rng.randrange(max(1, nln // m)) for k in range(m)})
-                        op["fault"] = {"kind": "interrupt_line_sweep", "ats": [min(nln, x) for x in ats], "at": ats[0]}
+                        op["fault"] = {"kind": "interrupt_line_sweep", "ats": [min(nln, x) for x in ats], "at": ats[0],
+                                       "exc": "alloc_line" if kind == "alloc_line" else "interrupt_line"}
                         self.ctx.probe("dry_runs_lines")
                     elif nln > 0:
                         op["fault"] = {"kind": kind, "at": rng.randint(1, nln)}
@@ -663,7 +664,7 @@ class World(WorldBase):
                 raise Refuse("sweeps are for calls without a long-lived object")
             for at in fault["ats"]:
                 before = dirstate(ctx.root)
-                _res, exc, (_nev, _dig, fired) = self.call(lambda: self.exec_call(op), {"kind": "interrupt_line", "at": at})
+                _res, exc, (_nev, _dig, fired) = self.call(lambda: self.exec_call(op), {"kind": fault.get("exc", "interrupt_line"), "at": at})
                 self.drop_last()
                 self.check_inputs(tag, op)
                 after = dirstate(ctx.root)
@@ -691,7 +692,7 @@ class World(WorldBase):
         # ---- I1: inputs untouched (also after a failed call: the call was made)
         self.check_inputs(tag, op)
         self.observe_globals(tag)
-        failing = fired is not None and fired[0] in ("interrupt", "interrupt_line", "oserror_write", "oserror_open", "oserror_read")
+        failing = fired is not None and fired[0] in ("interrupt", "interrupt_line", "alloc_line", "oserror_write", "oserror_open", "oserror_read")
         if exc is not None and failing:
             # relaxed oracle: the call that was made to fail may fail; its outputs are
             # un-acknowledged, the object it was called on leaves the pool
